@@ -134,6 +134,50 @@ func numericEqual(tol float64) func(model, code string) bool {
 	}
 }
 
+// numericEqualScaled is numericEqual with an absolute tolerance tol * (largest magnitude appearing in
+// either answer): float32 rounding is relative to the operands, so a small difference of two large
+// amounts (remaining - delta) cannot be compared relative to itself.
+func numericEqualScaled(tol float64) func(model, code string) bool {
+	split := func(tok string) (string, *big.Rat, bool) {
+		i := strings.LastIndexAny(tok, ":=")
+		if i < 0 {
+			return tok, nil, false
+		}
+		r, ok := parseRat(tok[i+1:])
+		return tok[:i], r, ok
+	}
+	return func(model, code string) bool {
+		mt, ct := strings.Fields(model), strings.Fields(code)
+		if len(mt) != len(ct) {
+			return false
+		}
+		scale := ratOfFloat(1e-30)
+		for _, toks := range [][]string{mt, ct} {
+			for _, t := range toks {
+				if _, r, ok := split(t); ok {
+					scale = maxAbs(scale, r)
+				}
+			}
+		}
+		lim := new(big.Rat).Mul(ratOfFloat(tol), scale)
+		for i := range mt {
+			if mt[i] == ct[i] {
+				continue
+			}
+			mp, a, ok1 := split(mt[i])
+			cp, b, ok2 := split(ct[i])
+			if !ok1 || !ok2 || mp != cp {
+				return false
+			}
+			d := new(big.Rat).Sub(a, b)
+			if d.Abs(d).Cmp(lim) > 0 {
+				return false
+			}
+		}
+		return true
+	}
+}
+
 func (c *vendConv) Check(m *lib.Monitor, code string) {
 	if code == "panic" {
 		m.Violate("C20/vending/Convert/panic", "Convert panicked: "+lastPanic, c, "no panic", code)
@@ -212,7 +256,10 @@ type vendSeq struct {
 }
 
 func encStock(s stockInit) string {
-	return encName(s.Name) + "=" + s.Used.enc() + "/" + s.Remaining.enc()
+	return encName(s.Name) + "=" + s.Used.enc() + ";" + s.Remaining.enc()
+}
+func outStock(s stockInit) string {
+	return encName(s.Name) + " u=" + s.Used.enc() + " r=" + s.Remaining.enc()
 }
 
 // Line: the model replays the whole sequence from the exact rationals of the float32 inputs.
@@ -263,12 +310,12 @@ func inventoryState(m *vendingpb.Model) []stockInit {
 func encInv(st []stockInit) string {
 	var parts []string
 	for _, s := range st {
-		parts = append(parts, encStock(s))
+		parts = append(parts, outStock(s))
 	}
 	if len(parts) == 0 {
 		return "-"
 	}
-	return strings.Join(parts, "|")
+	return strings.Join(parts, " | ")
 }
 
 func (c *vendSeq) RunCode() string {
@@ -298,10 +345,13 @@ func (c *vendSeq) RunCode() string {
 			if st == nil {
 				return "nil"
 			}
-			return "ok:" + qtyOf(st.LastDispensed).enc() + ":" + strconv.FormatBool(st.Dispensing)
+			return "ok ld=" + qtyOf(st.LastDispensed).enc() + " disp=" + strconv.FormatBool(st.Dispensing)
 		})
 		c.rets = append(c.rets, ret)
-		outs = append(outs, ret+" # "+strings.ReplaceAll(catch(func() string { return encInv(inventoryState(m)) }), "|", " | "))
+		outs = append(outs, ret+" # "+catch(func() string { return encInv(inventoryState(m)) }))
+	}
+	if st := catch(func() string { c.pre = append(c.pre, inventoryState(m)); return "" }); st != "" {
+		c.pre = append(c.pre, nil)
 	}
 	return strings.Join(outs, " ; ")
 }
@@ -327,8 +377,6 @@ func (c *vendSeq) Check(m *lib.Monitor, code string) {
 		var post []stockInit
 		if i+1 < len(c.pre) {
 			post = c.pre[i+1]
-		} else {
-			post = parseInv(strings.ReplaceAll(strings.SplitN(steps[i], " # ", 2)[1], " | ", "|"))
 		}
 		if ret == "panic" || strings.Contains(steps[i], "# panic") {
 			cls := "panic"
@@ -385,12 +433,12 @@ func (c *vendSeq) Check(m *lib.Monitor, code string) {
 			}
 			continue
 		}
-		if !strings.HasPrefix(ret, "ok:") {
+		if !strings.HasPrefix(ret, "ok ") {
 			m.Violate("C20/vending/Dispense/spurious-error", "a convertible Dispense on a known consumable must succeed", c, "ok", ret)
 			continue
 		}
-		if ret != "ok:"+o.Q.enc()+":false" {
-			m.Violate("C20/vending/Dispense/last-dispensed", "last_dispensed must be the dispensed quantity and dispensing false", c, "ok:"+o.Q.enc()+":false", ret)
+		if ret != "ok ld="+o.Q.enc()+" disp=false" {
+			m.Violate("C20/vending/Dispense/last-dispensed", "last_dispensed must be the dispensed quantity and dispensing false", c, "ok ld="+o.Q.enc()+" disp=false", ret)
 		}
 		for _, p := range post {
 			var was *stockInit
@@ -452,51 +500,6 @@ func maxAbs(xs ...*big.Rat) *big.Rat {
 		}
 	}
 	return m
-}
-
-func parseQty(s string) *qty {
-	if s == "-" {
-		return nil
-	}
-	p := strings.SplitN(s, ":", 2)
-	u, _ := strconv.Atoi(p[0])
-	r, _ := parseRat(p[1])
-	f, _ := r.Float64()
-	return &qty{Unit: int32(u), Amount: float32(f)}
-}
-
-func parseInv(s string) []stockInit {
-	if s == "-" || s == "panic" {
-		return nil
-	}
-	var out []stockInit
-	for _, part := range strings.Split(s, "|") {
-		kv := strings.SplitN(part, "=", 2)
-		ur := strings.SplitN(kv[1], "/", 2)
-		// amounts are rationals "a/b": split on the first "/" that is followed by a unit digit + ':' or '-'
-		idx := splitStock(kv[1])
-		ur = []string{kv[1][:idx], kv[1][idx+1:]}
-		name := kv[0]
-		if name == "~" {
-			name = ""
-		}
-		out = append(out, stockInit{Name: name, Used: parseQty(ur[0]), Remaining: parseQty(ur[1])})
-	}
-	return out
-}
-
-// splitStock finds the '/' separating used from remaining in "u:n/d/u:n/d" (rationals contain '/').
-func splitStock(s string) int {
-	for i := 0; i < len(s); i++ {
-		if s[i] != '/' {
-			continue
-		}
-		rest := s[i+1:]
-		if rest == "-" || (len(rest) >= 2 && rest[1] == ':') {
-			return i
-		}
-	}
-	return -1
 }
 
 // ---- option plumbing ---------------------------------------------------------------------------------
@@ -633,9 +636,9 @@ func init() {
 			}
 		}
 		seq := &section{name: "vending/seq",
-			tie:     res.Tie("vending.Dispense sequences", "K1", "random: 1..3 stock records with any subset of used/remaining present (each 70%), units mostly volume (70%) else any of the 7, then 1..6 Dispense ops (consumable known 85%, unknown 10%, empty 5%); the model replays the sequence over exact rationals from the same float32 inputs, answers equal when every amount is within 1e-5 relative; non-trivial = some op hits a stock with a quantity present; distinct by request line"),
+			tie:     res.Tie("vending.Dispense sequences", "K1", "random: 1..3 stock records with any subset of used/remaining present (each 70%), units mostly volume (70%) else any of the 7, then 1..6 Dispense ops (consumable known 85%, unknown 10%, empty 5%); the model replays the sequence over exact rationals from the same float32 inputs, answers equal when every amount is within 1e-5 x the largest magnitude in the answer (float32 rounding is relative to the operands); non-trivial = some op hits a stock with a quantity present; distinct by request line"),
 			mon:     res.Monitor("vending.Dispense vs math/big spec", "per step from the code's own previous state: used' = used + conv q, remaining' = max 0 (remaining - conv q), own units kept, absent stays absent, other stocks unchanged, conversion error reported and stock unchanged, no panic"),
-			compare: numericEqual(1e-5)}
+			compare: numericEqualScaled(1e-5)}
 		names := []string{"water", "milk", "beans"}
 		n := f.N(1200, 15000)
 		for i := 0; i < n; i++ {
